@@ -275,4 +275,276 @@ Section RT.
       + intros x I I2. apply in_app_or in I2. destruct I2 as [I2|[<-|[]]]; [|exact (Nl I)].
         apply (Fr x); [right; exact I|exact I2].
   Qed.
+
+  (** ---- bookkeeping ------------------------------------------------------------------------------ *)
+
+  Definition frame (st st' : dst) : Prop :=
+    length (fst st) <= length (fst st') /\
+    forall l, l < length (fst st) -> nth_error (fst st') l = nth_error (fst st) l.
+
+  Lemma frame_refl st : frame st st.
+  Proof. split; auto. Qed.
+
+  Lemma frame_trans a b c : frame a b -> frame b c -> frame a c.
+  Proof. intros [L1 A1] [L2 A2]. split; [lia|]. intros l Hl. rewrite A2 by lia. apply A1, Hl. Qed.
+
+  Lemma closed_set_agree (P : nat -> Prop) h h' : closed_set P h -> agree_on P h h' -> closed_set P h'.
+  Proof. intros C A l nd Pl En. rewrite <- (A l Pl) in En. apply (C l nd Pl En). Qed.
+
+  Lemma closed_set_equiv (P Q : nat -> Prop) h : (forall l, P l <-> Q l) -> closed_set P h -> closed_set Q h.
+  Proof.
+    intros E C l nd Ql En. eapply Forall_ref_in_impl; [apply E|]. apply (C l nd); [apply E, Ql|exact En].
+  Qed.
+
+  Lemma closed_set_union (P Q : nat -> Prop) h : closed_set P h -> closed_set Q h -> closed_set (fun l => P l \/ Q l) h.
+  Proof.
+    intros CP CQ l nd [Pl|Ql] En.
+    - eapply Forall_ref_in_impl; [|apply (CP l nd Pl En)]. auto.
+    - eapply Forall_ref_in_impl; [|apply (CQ l nd Ql En)]. auto.
+  Qed.
+
+  (** a set whose nodes all point into a larger set *)
+  Definition points_into (P Q : nat -> Prop) (h : heap) : Prop :=
+    forall l nd, P l -> nth_error h l = Some nd -> Forall (ref_in Q) (children nd).
+
+  Lemma thread_items_as_list {St A B} (F : St -> A -> hres (St * B)) d :
+    forall s s' d', thread_items F s d = HOk (s', d') ->
+      thread_list F s (map snd d) = HOk (s', map snd d') /\ map fst d' = map fst d.
+  Proof.
+    unfold thread_items. induction d as [|[k x] d IH]; intros s s' d' E; cbn in E.
+    - injection E as <- <-. split; reflexivity.
+    - unfold on_item at 1 in E. cbn [snd fst] in E.
+      destruct (F s x) as [[s1 y]|e] eqn:E1; [|discriminate].
+      destruct (thread_list (on_item F) s1 d) as [[s2 ys]|e] eqn:E2; [|discriminate].
+      injection E as <- <-. destruct (IH _ _ _ E2) as [T K]. cbn. rewrite E1, T, K. split; reflexivity.
+  Qed.
+
+  Lemma trepi_as_treps P d : forall js V,
+    trepi P d js V <-> (map fst js = map fst d /\ treps P (map snd d) (map snd js) V).
+  Proof.
+    induction d as [|[k r] d IH]; intros [|[k' j] js] V; cbn.
+    - split; [intros ->; split; reflexivity|intros [_ ->]; reflexivity].
+    - split; [contradiction|intros [E _]; discriminate].
+    - split; [contradiction|intros [E _]; discriminate].
+    - split.
+      + intros (-> & V1 & V2 & E & P1 & T & D). apply IH in T. destruct T as [K T].
+        split; [f_equal; exact K|]. exists V1, V2. repeat split; auto.
+      + intros (K & V1 & V2 & E & P1 & T & D). injection K as -> K.
+        split; [reflexivity|]. exists V1, V2. repeat split; auto. apply IH. split; auto.
+  Qed.
+
+  (** ---- the second restore pass keeps the encoding ---------------------------------------------- *)
+
+  Definition grow (Pc : nat -> Prop) (a b : nat) : nat -> Prop := fun l => Pc l \/ inr a b l.
+
+  Lemma grow_mono Pc a b a' b' l : a' <= a -> b <= b' -> grow Pc a b l -> grow Pc a' b' l.
+  Proof. unfold grow, inr. intros ? ? [?|?]; [left; assumption|right; lia]. Qed.
+
+  Definition rr_pre (Pc : nat -> Prop) (st : dst) : Prop :=
+    (forall l, Pc l -> l < length (fst st)) /\ closed_set Pc (fst st).
+
+  Lemma agree_of_frame (P : nat -> Prop) st st' :
+    frame st st' -> (forall l, P l -> l < length (fst st)) -> agree_on P (fst st) (fst st').
+  Proof. intros [_ A] Lt l Pl. symmetry. apply A, Lt, Pl. Qed.
+
+  Lemma rr_pre_frame Pc st st' : rr_pre Pc st -> frame st st' -> rr_pre Pc st'.
+  Proof.
+    intros [Lt Cl] F. split.
+    - intros l Pl. destruct F as [L _]. specialize (Lt l Pl). lia.
+    - eapply closed_set_agree; [exact Cl|]. apply agree_of_frame; assumption.
+  Qed.
+
+  Definition rr_ok (Pc : nat -> Prop) (n : nat) (st st' : dst) (a : ref) (j : json) (V : list nat) : Prop :=
+    frame st st' /\
+    ref_in (grow Pc (length (fst st)) (length (fst st'))) a /\
+    closed_set (grow Pc (length (fst st)) (length (fst st'))) (fst st') /\
+    exists V', (forall x, In x V' -> In x V \/ inr (length (fst st)) (length (fst st')) x) /\
+               trep n (fst st') a j V'.
+
+  Definition rrs_ok (Pc : nat -> Prop) (n : nat) (st st' : dst) (rs' : list ref) (js : list json) (V : list nat) : Prop :=
+    frame st st' /\
+    Forall (ref_in (grow Pc (length (fst st)) (length (fst st')))) rs' /\
+    closed_set (grow Pc (length (fst st)) (length (fst st'))) (fst st') /\
+    exists V', (forall x, In x V' -> In x V \/ inr (length (fst st)) (length (fst st')) x) /\
+               treps (trep n (fst st')) rs' js V'.
+
+  Lemma closed_grow_empty Pc a h : closed_set Pc h -> closed_set (grow Pc a a) h.
+  Proof.
+    apply closed_set_equiv. intros l. unfold grow, inr. split; [auto|intros [?|?]; [assumption|lia]].
+  Qed.
+
+  Definition rr_step (fr : nat) : Prop :=
+    forall st c st' a, re_restore fr st c = HOk (st', a) ->
+    forall Pc n j V, rr_pre Pc st -> ref_in Pc c -> trep n (fst st) c j V -> (forall x, In x V -> Pc x) ->
+    rr_ok Pc n st st' a j V.
+
+  Lemma rr_thread fr : rr_step fr ->
+    forall rs st st' rs', thread_list (re_restore fr) st rs = HOk (st', rs') ->
+    forall Pc n js V, rr_pre Pc st -> Forall (ref_in Pc) rs -> treps (trep n (fst st)) rs js V ->
+      (forall x, In x V -> Pc x) -> rrs_ok Pc n st st' rs' js V.
+  Proof.
+    intros Step. induction rs as [|c t IH]; intros st st' rs' E Pc n js V Pre Fc T Sub; cbn in E.
+    - injection E as <- <-. destruct js; cbn in T; [|contradiction]. subst V.
+      split; [apply frame_refl|]. split; [constructor|]. split; [apply closed_grow_empty, Pre|].
+      exists []. split; [intros x []|reflexivity].
+    - destruct (re_restore fr st c) as [[s1 a1]|e] eqn:E1; [|discriminate].
+      destruct (thread_list (re_restore fr) s1 t) as [[s2 t']|e] eqn:E2; [|discriminate].
+      injection E as <- <-.
+      destruct js as [|j js]; cbn in T; [contradiction|].
+      destruct T as (V1 & V2 & -> & T1 & T2 & D).
+      inversion Fc as [|? ? Rc Ft]; subst.
+      assert (Sub1 : forall x, In x V1 -> Pc x) by (intros; apply Sub, in_or_app; auto).
+      assert (Sub2 : forall x, In x V2 -> Pc x) by (intros; apply Sub, in_or_app; auto).
+      destruct (Step _ _ _ _ E1 Pc n j V1 Pre Rc T1 Sub1) as (F1 & R1 & C1 & V1' & S1 & T1').
+      assert (Pre1 : rr_pre Pc s1) by (eapply rr_pre_frame; eauto).
+      assert (A1 : agree_on Pc (fst st) (fst s1)) by (apply agree_of_frame; [exact F1|apply Pre]).
+      assert (T2' : treps (trep n (fst s1)) t js V2).
+      { eapply treps_impl; [|exact T2]. intros r j1 Vx I. apply (trep_region Pc); [apply Pre|exact A1|].
+        rewrite Forall_forall in Ft. apply Ft, I. }
+      destruct (IH _ _ _ E2 Pc n js V2 Pre1 Ft T2' Sub2) as (F2 & R2 & C2 & V2' & S2 & T2'').
+      pose proof (proj1 F1) as L1. pose proof (proj1 F2) as L2.
+      assert (Lt1 : forall l, grow Pc (length (fst st)) (length (fst s1)) l -> l < length (fst s1)).
+      { intros l [Pl|[_ Hl]]; [|exact Hl]. destruct Pre as [Lt _]. specialize (Lt l Pl). lia. }
+      assert (A2 : agree_on (grow Pc (length (fst st)) (length (fst s1))) (fst s1) (fst s2)).
+      { apply agree_of_frame; assumption. }
+      split; [eapply frame_trans; eauto|]. split; [|split].
+      + constructor.
+        * eapply ref_in_impl; [|exact R1]. intros l. apply grow_mono; lia.
+        * eapply Forall_impl; [|exact R2]. intros r. apply ref_in_impl. intros l. apply grow_mono; lia.
+      + eapply closed_set_equiv with
+          (P := fun l => grow Pc (length (fst st)) (length (fst s1)) l \/ grow Pc (length (fst s1)) (length (fst s2)) l).
+        * intros l. unfold grow, inr. split; [intros [[?|?]|[?|?]]; auto; right; lia|].
+          intros [?|?]; [left; left; assumption|].
+          destruct (Nat.lt_ge_cases l (length (fst s1))); [left; right; lia|right; right; lia].
+        * apply closed_set_union; [eapply closed_set_agree; eauto|exact C2].
+      + exists (V1' ++ V2'). split.
+        * intros x I. apply in_app_or in I. destruct I as [I|I].
+          -- destruct (S1 x I) as [?|?]; [left; apply in_or_app; auto|right; unfold inr in *; lia].
+          -- destruct (S2 x I) as [?|?]; [left; apply in_or_app; auto|right; unfold inr in *; lia].
+        * cbn. exists V1', V2'. split; [reflexivity|]. split.
+          { apply (trep_region (grow Pc (length (fst st)) (length (fst s1))) _ (fst s1)); assumption. }
+          split; [exact T2''|].
+          intros x I1 I2. destruct Pre as [Lt _].
+          destruct (S1 x I1) as [X1|X1], (S2 x I2) as [X2|X2].
+          -- exact (D x X1 X2).
+          -- specialize (Lt x (Sub1 x X1)). unfold inr in X2. lia.
+          -- specialize (Lt x (Sub2 x X2)). unfold inr in X1. lia.
+          -- unfold inr in *. lia.
+  Qed.
+
+  (** closing a container: the placeholder at the old end of the heap is filled in *)
+  Lemma finish_container (Pc : nat -> Prop) (st st1 st2 : dst) nd0 nd n' rs' js V0 V0' :
+    fst st1 = fst st ++ [nd0] ->
+    (forall l, Pc l -> l < length (fst st)) ->
+    frame st1 st2 ->
+    children nd = rs' ->
+    Forall (ref_in (grow Pc (length (fst st1)) (length (fst st2)))) rs' ->
+    closed_set (grow Pc (length (fst st1)) (length (fst st2))) (fst st2) ->
+    (forall x, In x V0' -> In x V0 \/ inr (length (fst st1)) (length (fst st2)) x) ->
+    (forall x, In x V0 -> Pc x) ->
+    treps (trep n' (fst st2)) rs' js V0' ->
+    let st' := fill st2 (length (fst st)) nd in
+    frame st st' /\ length (fst st') = length (fst st2) /\ length (fst st) < length (fst st2) /\
+    nth_error (fst st') (length (fst st)) = Some nd /\
+    closed_set (grow Pc (length (fst st)) (length (fst st'))) (fst st') /\
+    treps (trep n' (fst st')) rs' js V0' /\ ~ In (length (fst st)) V0' /\
+    (forall x, In x V0' -> In x V0 \/ inr (length (fst st)) (length (fst st')) x).
+  Proof.
+    intros E1 Lt [L12 A12] K R C Sv Sub T. cbn zeta. unfold fill. cbn [fst snd].
+    assert (L1 : length (fst st1) = S (length (fst st))) by (rewrite E1, app_length; cbn; lia).
+    set (a0 := length (fst st)) in *. set (b := length (fst st2)) in *.
+    rewrite heap_set_length. fold b.
+    assert (Ag : agree_on (grow Pc (length (fst st1)) b) (fst st2) (heap_set (fst st2) a0 nd)).
+    { intros l Gl. symmetry. apply heap_set_other. destruct Gl as [Pl|[Hl _]]; [specialize (Lt l Pl); lia|lia]. }
+    split; [|split; [reflexivity|split; [lia|split; [apply heap_set_same; lia|]]]].
+    { split; [cbn; rewrite heap_set_length; fold b; lia|]. intros l Hl. cbn [fst].
+      rewrite heap_set_other by (fold a0 in Hl; lia). rewrite A12 by (fold a0 in Hl; lia).
+      rewrite E1. apply nth_error_app1. exact Hl. }
+    split; [|split; [|split]].
+    - intros l nd' Gl En. destruct (Nat.eq_dec l a0) as [->|N].
+      + rewrite heap_set_same in En by lia. injection En as <-. rewrite K.
+        eapply Forall_impl; [|exact R]. intros r. apply ref_in_impl. intros x. apply grow_mono; lia.
+      + rewrite heap_set_other in En by exact N.
+        assert (G1 : grow Pc (length (fst st1)) b l).
+        { destruct Gl as [Pl|[Lo Hi]]; [left; exact Pl|right; unfold inr; lia]. }
+        eapply Forall_ref_in_impl; [|apply (C l nd' G1 En)]. intros x. apply grow_mono; lia.
+    - eapply treps_impl; [|exact T]. intros r j Vx I.
+      apply (trep_region (grow Pc (length (fst st1)) b) _ (fst st2)); [exact C|exact Ag|].
+      rewrite Forall_forall in R. apply R, I.
+    - intros I. destruct (Sv _ I) as [X|X]; [specialize (Lt _ (Sub _ X)); lia|unfold inr in X; lia].
+    - intros x I. destruct (Sv _ I) as [X|X]; [left; exact X|right; unfold inr in *; lia].
+  Qed.
+
+  Lemma rr_identity (Pc : nat -> Prop) n st c j V :
+    rr_pre Pc st -> ref_in Pc c -> trep n (fst st) c j V -> rr_ok Pc n st st c j V.
+  Proof.
+    intros Pre R T. split; [apply frame_refl|].
+    split; [eapply ref_in_impl; [|exact R]; intros l Pl; left; exact Pl|].
+    split; [apply closed_grow_empty, Pre|]. exists V. split; [auto|exact T].
+  Qed.
+
+  Lemma frame_snoc (st : dst) nd objs : frame st (fst st ++ [nd], objs).
+  Proof. split; cbn; [rewrite app_length; lia|]. intros l Hl. apply nth_error_app1, Hl. Qed.
+
+  Lemma rr_all : forall fr, rr_step fr.
+  Proof.
+    induction fr as [|f IH]; intros st c st' a E Pc n j V Pre Rc T Sub; [discriminate|].
+    cbn [re_restore] in E. destruct c as [x|l]; [injection E as <- <-; apply rr_identity; assumption|].
+    destruct (nth_error (fst st) l) as [nd|] eqn:En; [|discriminate].
+    destruct nd as [rs|rs|rs|d|c d]; try (injection E as <- <-; apply rr_identity; assumption).
+    - (* a list is rebuilt *)
+      unfold alloc in E. cbn zeta in E.
+      destruct (thread_list (re_restore f) (fst st ++ [NList []], snd st ++ [RLoc (length (fst st))]) rs)
+        as [[st2 rs']|e] eqn:ET; [|discriminate].
+      injection E as <- <-.
+      destruct n as [|n']; [contradiction|]. cbn [trep] in T. rewrite En in T.
+      destruct T as (js & V0 & -> & -> & Nl & T).
+      pose proof Pre as [Lt Cl].
+      set (st1 := (fst st ++ [NList []], snd st ++ [RLoc (length (fst st))])) in *.
+      assert (F01 : frame st st1) by apply frame_snoc.
+      assert (Pre1 : rr_pre Pc st1) by (apply (rr_pre_frame Pc st); assumption).
+      assert (Frs : Forall (ref_in Pc) rs) by (apply (Cl l _ Rc En)).
+      assert (T1 : treps (trep n' (fst st1)) rs js V0).
+      { eapply treps_impl; [|exact T]. intros r j1 Vx I.
+        apply (trep_region Pc _ (fst st)); [exact Cl|apply agree_of_frame; assumption|].
+        rewrite Forall_forall in Frs; apply Frs, I. }
+      assert (Sub0 : forall x, In x V0 -> Pc x) by (intros; apply Sub; right; assumption).
+      destruct (rr_thread f IH _ _ _ _ ET Pc n' js V0 Pre1 Frs T1 Sub0) as (F12 & R2 & C2 & V0' & S2 & T2).
+      destruct (finish_container Pc st st1 st2 (NList []) (NList rs') n' rs' js V0 V0'
+                  eq_refl Lt F12 eq_refl R2 C2 S2 Sub0 T2) as (Fr & Len & Lt2 & Nth & Cl' & T' & NotIn & S').
+      split; [exact Fr|]. split; [right; rewrite Len; unfold inr; lia|]. split; [exact Cl'|].
+      exists (length (fst st) :: V0'). split.
+      + intros x [<-|I]; [right; rewrite Len; unfold inr; lia|].
+        destruct (S' x I) as [?|?]; [left; right; assumption|right; assumption].
+      + cbn [trep]. rewrite Nth. exists js, V0'. repeat (split; [reflexivity || assumption|]). exact T'.
+    - (* a plain dict is rebuilt *)
+      destruct (has_any DISPATCH_TAGS d); [discriminate|].
+      unfold alloc in E. cbn zeta in E.
+      destruct (thread_items (re_restore f) (fst st ++ [NDict []], snd st) (sort_items d))
+        as [[st2 d']|e] eqn:ET; [|discriminate].
+      injection E as <- <-.
+      destruct n as [|n']; [contradiction|]. cbn [trep] in T. rewrite En in T.
+      destruct T as (js & -> & Ck & T).
+      pose proof Pre as [Lt Cl].
+      assert (Sd : sort_items d = d).
+      { apply sort_items_sorted. unfold canon_keys in Ck. apply andb_prop in Ck. apply Ck. }
+      rewrite Sd in ET.
+      set (st1 := (fst st ++ [NDict []], snd st)) in *.
+      assert (F01 : frame st st1) by apply frame_snoc.
+      assert (Pre1 : rr_pre Pc st1) by (apply (rr_pre_frame Pc st); assumption).
+      assert (Frs : Forall (ref_in Pc) (map snd d)) by (apply (Cl l _ Rc En)).
+      apply thread_items_as_list in ET. destruct ET as [ET Kd].
+      apply trepi_as_treps in T. destruct T as [Kj T].
+      assert (T1 : treps (trep n' (fst st1)) (map snd d) (map snd js) V).
+      { eapply treps_impl; [|exact T]. intros r j1 Vx I.
+        apply (trep_region Pc _ (fst st)); [exact Cl|apply agree_of_frame; assumption|].
+        rewrite Forall_forall in Frs; apply Frs, I. }
+      destruct (rr_thread f IH _ _ _ _ ET Pc n' (map snd js) V Pre1 Frs T1 Sub) as (F12 & R2 & C2 & V0' & S2 & T2).
+      destruct (finish_container Pc st st1 st2 (NDict []) (NDict d') n' (map snd d') (map snd js) V V0'
+                  eq_refl Lt F12 eq_refl R2 C2 S2 Sub T2) as (Fr & Len & Lt2 & Nth & Cl' & T' & NotIn & S').
+      split; [exact Fr|]. split; [right; rewrite Len; unfold inr; lia|]. split; [exact Cl'|].
+      exists V0'. split; [exact S'|].
+      cbn [trep]. rewrite Nth. exists js. split; [reflexivity|]. split; [rewrite Kd; exact Ck|].
+      apply trepi_as_treps. split; [rewrite Kd; exact Kj|exact T'].
+  Qed.
 End RT.
